@@ -139,7 +139,7 @@ fn run_one(input: &Input, want_sample: bool) -> Value {
         other => viol.push(v("run-did-not-complete", format!("{other:?} after {} events", log.events.len()))),
     }
     // expected tokens from the callback log
-    let nlogs = |key: &str, inv: usize, phase: &str| hash_str(&format!("{key}#{inv}{phase}")) % 3;
+    let nlogs = |key: &str, inv: usize, phase: &str| lab::log_count(key, inv, phase);
     let mut expected: Vec<(String, String, usize, Option<u64>)> = vec![]; // token, key, inv, world
     for c in log.calls.iter().filter(|c| c.phase == Phase::Enter && c.key != "WorldNew" && c.oc != lab::Oc::PanicEager) {
         for phase in ["pre", "post"] {
